@@ -215,16 +215,19 @@ class QvmEval(EvaluationContext):
 
     def eval_var(self, var):
         var = var.lower()
-        if var in self.global_vars:
+        routine = self.current_routine()
+
+        # same lookup order as the compiler: parameters and locals of
+        # the current routine hide a SHARED variable of the same name
+        shadowed = var in routine.params or var in routine.local_vars
+        if var in self.global_vars and not shadowed:
             try:
                 return (self.cpu.globals_segment,
                         get_global_var_idx(self, var))
             except KeyError:
                 pass
 
-        routine = self.current_routine()
-
-        if var in routine.static_vars:
+        if var in routine.static_vars and not shadowed:
             # STATIC variables live in the global segment under a
             # routine-qualified name
             full_name = routine.get_variable(var).full_name
